@@ -41,7 +41,7 @@ theorem dsf_delete_preserves_chunks (L : Dsf.Layout) (h : L.OK) :
     simp [Dsf.Layout.tagPos, Dsf.dsdSize]; omega
 
 
-/-- the layout hypothesis is satisfiable (a 94-byte file with a 12-byte tag), and so are the numeric ones:
+/-- the layout hypothesis is satisfiable (a 106-byte file with a 12-byte tag at offset 94), and so are the numeric ones:
 a save of 2 bytes of frames under the default policy keeps the 0 bytes that are left -/
 example : Dsf.exampleLayout.OK ∧
     getPadding .default ((Dsf.exampleLayout.tag.length : Int) - (2 + 10 : Nat)) 0 = (0 : Nat) :=
